@@ -18,6 +18,7 @@ func extractAll(p *pkg, f *facts) {
 	startupFacts(p, f)
 	tlsFacts(p, f)
 	poolFacts(p, f)
+	drainFacts(p, f)
 }
 
 func (p *pkg) constNat(f *facts, leanName, goName string) {
@@ -689,5 +690,93 @@ func poolFacts(p *pkg, f *facts) {
 		f.boolean("poolResizeSendsNil", strings.Contains(exprString(p.fset, fn.Body), "ResultChan <- nil"), true, "")
 	} else {
 		f.boolean("poolResizeSendsNil", false, false, "func Resize not found")
+	}
+}
+
+func drainFacts(p *pkg, f *facts) {
+	if fn, ok := p.funcs["NFSProcedureHandler.HandleCall"]; ok {
+		src := exprString(p.fset, fn.Body)
+		// TryRLock with a JUKEBOX reply when it fails
+		try := false
+		ast.Inspect(fn.Body, func(n ast.Node) bool {
+			if is, ok := n.(*ast.IfStmt); ok && strings.Contains(exprString(p.fset, is.Cond), "policyRWMu.TryRLock()") &&
+				strings.HasPrefix(exprString(p.fset, is.Cond), "!") && strings.Contains(exprString(p.fset, is.Body), "NFSERR_JUKEBOX") {
+				try = true
+			}
+			return true
+		})
+		f.boolean("drainTryRLock", try && !strings.Contains(src, "policyRWMu.RLock()"), true, "")
+		// `defer …RUnlock()` appears inside the goroutine's function literal, and HandleCall itself does not defer it
+		inGo, top := false, false
+		for _, st := range fn.Body.List {
+			if ds, ok := st.(*ast.DeferStmt); ok && strings.Contains(exprString(p.fset, ds.Call), "RUnlock") {
+				top = true
+			}
+		}
+		ast.Inspect(fn.Body, func(n ast.Node) bool {
+			gs, ok := n.(*ast.GoStmt)
+			if !ok {
+				return true
+			}
+			if fl, ok := gs.Call.Fun.(*ast.FuncLit); ok {
+				for _, st := range fl.Body.List {
+					if ds, ok := st.(*ast.DeferStmt); ok && strings.Contains(exprString(p.fset, ds.Call), "policyRWMu.RUnlock") {
+						inGo = true
+					}
+				}
+			}
+			return true
+		})
+		f.boolean("drainGoroutineOwnsUnlock", inGo && !top, true, "")
+	} else {
+		f.boolean("drainTryRLock", false, false, "func HandleCall not found")
+		f.boolean("drainGoroutineOwnsUnlock", false, false, "func HandleCall not found")
+	}
+	if fn, ok := p.funcs["AbsfsNFS.UpdatePolicyOptions"]; ok {
+		var lockPos, storePos, limPos, unlockPos token.Pos
+		ast.Inspect(fn.Body, func(n ast.Node) bool {
+			switch t := n.(type) {
+			case *ast.CallExpr:
+				switch exprString(p.fset, t.Fun) {
+				case "n.policyRWMu.Lock":
+					lockPos = t.Pos()
+				case "n.policyRWMu.Unlock":
+					unlockPos = t.Pos()
+				case "n.policy.Store":
+					storePos = t.Pos()
+				}
+			case *ast.AssignStmt:
+				if len(t.Lhs) == 1 && exprString(p.fset, t.Lhs[0]) == "n.rateLimiter" {
+					limPos = t.Pos()
+				}
+			}
+			return true
+		})
+		f.boolean("drainUpdateUnderLock", lockPos != 0 && lockPos < storePos && storePos < unlockPos && lockPos < limPos && limPos < unlockPos, true, "")
+	} else {
+		f.boolean("drainUpdateUnderLock", false, false, "func UpdatePolicyOptions not found")
+	}
+	if fn, ok := p.funcs["Server.handleConnectionLoop"]; ok {
+		// the limiter consulted by AllowRequest is obtained inside the for loop
+		per := false
+		ast.Inspect(fn.Body, func(n ast.Node) bool {
+			fs, ok := n.(*ast.ForStmt)
+			if !ok {
+				return true
+			}
+			ast.Inspect(fs.Body, func(m ast.Node) bool {
+				if as, ok := m.(*ast.AssignStmt); ok && len(as.Lhs) == 1 && exprString(p.fset, as.Lhs[0]) == "connRateLimiter" {
+					r := exprString(p.fset, as.Rhs[0])
+					if strings.Contains(r, "currentRateLimiter()") || strings.Contains(r, "rateLimiter") {
+						per = true
+					}
+				}
+				return true
+			})
+			return true
+		})
+		f.boolean("connLoopLimiterPerRequest", per, true, "")
+	} else {
+		f.boolean("connLoopLimiterPerRequest", false, false, "func handleConnectionLoop not found")
 	}
 }
